@@ -560,7 +560,7 @@ class ArrayExpr(SingletonExpr):
                 (normalized_dict[i] if i in normalized_dict and normalized_dict[i] is not None else self.chunks[i])
                 for i in range(self.ndim)
             )
-        if isinstance(resolved_chunks, (tuple, list)):
+        if isinstance(resolved_chunks, (tuple, list)) and not _flat_block_sizes(resolved_chunks, self.shape):
             resolved_chunks = tuple(lc if lc is not None else rc for lc, rc in zip(resolved_chunks, self.chunks))
         resolved_chunks = normalize_chunks(
             resolved_chunks,
@@ -581,6 +581,21 @@ class ArrayExpr(SingletonExpr):
 
     def finalize_compute(self):
         return FinalizeComputeArray(self)
+
+
+def _flat_block_sizes(chunks, shape):
+    """Whether ``chunks`` spells the block sizes of a 1-d array flat, as in
+    ``x.rechunk((2, 3))`` for five elements: ``normalize_chunks`` reads that
+    as one axis' blocks, so it is not a per-axis spec in which ``None`` keeps
+    an axis' chunks (and of which only the first ``ndim`` entries count)."""
+    from numbers import Integral
+
+    return (
+        len(shape) == 1
+        and len(chunks) > 1
+        and all(isinstance(c, Integral) for c in chunks)
+        and sum(chunks) == shape[0]
+    )
 
 
 def coarse_blockdim(blockdims):
